@@ -314,12 +314,14 @@ fn sequences<E: Ep>(run: &Arc<Run>, variant: Variant, depth: usize) {
 
 fn many_small<E: Ep>(run: &Arc<Run>, variant: Variant, max_n: usize) {
     let base = Pair::<E>::online(variant);
-    let cases: Vec<(usize, usize, bool)> = (1..=max_n)
-        .flat_map(|n| [(n, 0, true), (n, 1, true), (n, 0, false), (n, 1, false)])
+    // (n, size, vital, lose): with `lose` the first transmission is lost and the chunks
+    // must come through the resend path (timer or peer request), which rebuilds packets
+    let cases: Vec<(usize, usize, bool, u8)> = (1..=max_n)
+        .flat_map(|n| [(n, 0, true, 0), (n, 1, true, 0), (n, 0, false, 0), (n, 1, false, 0), (n, 0, true, 1), (n, 1, true, 1), (n, 2, true, 2)])
         .collect();
-    cases.par_iter().for_each(|&(n, size, vital)| {
+    cases.par_iter().for_each(|&(n, size, vital, lose)| {
         run.add_evals(1);
-        let desc = json!({"many_small_chunks": {"n": n, "size": size, "vital": vital}, "variant": variant.name()});
+        let desc = json!({"many_small_chunks": {"n": n, "size": size, "vital": vital, "first_transmission_lost": lose}, "variant": variant.name()});
         let _g = run.watchdog.watch(Arc::new(move || desc.clone()));
         let r = vp_core::catch(|| -> Result<(), (String, String)> {
             let mut p = base.clone_pair();
@@ -344,6 +346,24 @@ fn many_small<E: Ep>(run: &Arc<Run>, variant: Variant, max_n: usize) {
             for d in std::mem::take(&mut p.emitted[0]) {
                 check_datagram::<E>(&mut w, token_mode, &d)?;
             }
+            if lose != 0 {
+                p.net[1].clear();
+                if lose == 1 {
+                    p.advance(1_000_000);
+                    p.with(0, |e, cb| e.tick(cb));
+                } else {
+                    let d = peer_datagram(&p, wire::F6_RESEND, wire::F7_RESEND, 0);
+                    p.feed(0, &d);
+                }
+                p.with(0, |e, cb| e.flush(cb));
+                let out = std::mem::take(&mut p.emitted[0]);
+                if out.is_empty() {
+                    return Err(("resend-sends-nothing".into(), "no datagram after the loss".into()));
+                }
+                for d in out {
+                    check_datagram::<E>(&mut w, token_mode, &d)?;
+                }
+            }
             let evs = p.settle();
             let got: Vec<&Vec<u8>> = evs[1]
                 .iter()
@@ -367,14 +387,14 @@ fn many_small<E: Ep>(run: &Arc<Run>, variant: Variant, max_n: usize) {
         };
         match r {
             Ok(()) => run.class(
-                &format!("many:{}:size{}:vital{}:{}", variant.name(), size, vital, if n >= 256 { "n>=256" } else { "n<256" }),
-                || json!({"n": n, "size": size, "vital": vital}),
+                &format!("many:{}:size{}:vital{}:lost{}:{}", variant.name(), size, vital, lose, if n >= 256 { "n>=256" } else { "n<256" }),
+                || json!({"n": n, "size": size, "vital": vital, "first_transmission_lost": lose}),
             ),
             Err((sig, detail)) => {
                 run.violation(
                     &format!("{}:{}", variant.name(), sig),
                     &detail,
-                    json!({"many_small_chunks": {"n": n, "size": size, "vital": vital}, "variant": variant.name()}),
+                    json!({"many_small_chunks": {"n": n, "size": size, "vital": vital, "first_transmission_lost": lose}, "variant": variant.name()}),
                 );
             }
         }
@@ -383,6 +403,7 @@ fn many_small<E: Ep>(run: &Arc<Run>, variant: Variant, max_n: usize) {
 
 fn main() {
     let run = Run::new("C04", "exploration");
+    vp_net::maybe_replay(&run);
     let _ = RANDOM;
     let variants = [Variant::V6T, Variant::V6N, Variant::V7];
     let depth = run.tier.pick(3, 4);
